@@ -101,6 +101,77 @@ func c07Gen(r *verifh.Rand, i int) interface{} {
 	return sc
 }
 
+// c07ReloadGen: update histories. One HTTPServer, 4-8 steps: requests with bodies around the limits in force before
+// and after in-place updates that change ONLY the server-level limit (rules untouched), nothing at all, the
+// path-level limit, or the rules as well. The path-level limit is mostly unset so that the server level decides.
+func c07ReloadGen(r *verifh.Rand, i int) interface{} {
+	sc := pxScenario{Host: "client.example"}
+	lims := []int64{16, 64, 1000, 4096, -1, 0}
+	pick := func() int64 { return lims[r.Intn(len(lims))] }
+	sc.Cfg = pxCfg{Server: "ip", Compression: -1, PathMax: int64(r.PickInt(0, 0, 0, 0, 32)), ServerMax: pick()}
+	curPath, curSrv, curRules := sc.Cfg.PathMax, sc.Cfg.ServerMax, 0
+	prev := []int64{curSrv}
+	req := func() pxStep {
+		// sizes around the limit in force now and around the earlier ones (a stale limit shows between them)
+		base := prev[r.Intn(len(prev))]
+		if r.Bool(1, 2) {
+			base = curSrv
+			if curPath != 0 {
+				base = curPath
+			}
+		}
+		n := 0
+		switch {
+		case base < 0:
+			n = r.PickInt(100, 5000, 100000)
+		case base == 0:
+			n = r.PickInt(0, 17, 65, 5000)
+		default:
+			n = int(base) + r.PickInt(-1, 0, 1, 1, 48)
+		}
+		if n < 0 {
+			n = 0
+		}
+		st := pxStep{Method: r.Pick("POST", "PUT"), Path: r.Pick("/", "/upload", "/a/b"), Host: "client.example",
+			Body:    pxBody{Len: n, Seed: r.Intn(1000), Kind: "text", Enc: r.Pick("cl", "chunked")},
+			Backend: pxBackend{Status: 200, Body: pxBody{Len: 3, Seed: 1, Kind: "text", Enc: "cl"}}}
+		return st
+	}
+	n := r.Range(4, 8)
+	sc.Steps = append(sc.Steps, req())
+	for k := 1; k < n; k++ {
+		if r.Bool(2, 5) {
+			rl := &pxReload{PathMax: curPath, ServerMax: curSrv, Rules: curRules}
+			switch r.Intn(6) {
+			case 0, 1, 2: // only the server-level limit
+				rl.ServerMax = pick()
+			case 3: // nothing at all
+			case 4: // the rules as well
+				rl.ServerMax, rl.Rules = pick(), (curRules+r.Range(1, 2))%4
+			default: // the path-level limit
+				rl.PathMax = int64(r.PickInt(0, 0, 32, 128))
+			}
+			curPath, curSrv, curRules = rl.PathMax, rl.ServerMax, rl.Rules
+			prev = append(prev, curSrv)
+			sc.Steps = append(sc.Steps, pxStep{Reload: rl})
+		}
+		sc.Steps = append(sc.Steps, req())
+	}
+	return sc
+}
+
+func c07ReloadExec(raw json.RawMessage) interface{} {
+	var sc pxScenario
+	if err := json.Unmarshal(raw, &sc); err != nil {
+		return map[string]string{"error": "bad-input"}
+	}
+	return pxRunHistory(&sc)
+}
+
+func TestVerifC07Reload(t *testing.T) {
+	verifh.Run(t, c07ReloadGen, c07ReloadExec, 0)
+}
+
 func c07Exec(raw json.RawMessage) interface{} {
 	var sc pxScenario
 	if err := json.Unmarshal(raw, &sc); err != nil {
